@@ -224,6 +224,16 @@ theorem dirLeft_only_by_port_drop_after_handles (w : World) (op : Op) {k : Nat} 
     simp only [step] at h
     repeat' split at h
     all_goals exact same h
+  | keys n =>
+    simp only [step] at h
+    repeat' split at h
+    all_goals exact same h
+  | notifyOne n slot l id =>
+    simp only [step] at h
+    repeat' split at h
+    all_goals first
+      | exact same h
+      | (simp only [(notifyOneCore_frame _ _ _ _ _ _).2.2.2.1] at h; exact same h)
   | count j =>
     simp only [step] at h
     repeat' split at h
